@@ -92,7 +92,7 @@ def plan(tier, seed):
     ch = [{'k': 'seq', 'first': None, 'maxlen': 0}]
     for i in range(len(SHAPES)):
         ch.append({'k': 'seq', 'first': i, 'maxlen': 2 if tier == 'quick' else 3})
-    ch += [{'k': 'trunc'}, {'k': 'nohdr'}, {'k': 'shipped', 'type': 'mex'}, {'k': 'shipped', 'type': 'nimitz'}, {'k': 'strings'}]
+    ch += [{'k': 'rewrite'}, {'k': 'trunc'}, {'k': 'nohdr'}, {'k': 'shipped', 'type': 'mex'}, {'k': 'shipped', 'type': 'nimitz'}, {'k': 'strings'}]
     return ch
 
 
@@ -172,8 +172,41 @@ def compare(got, data, strings):
     return None, len(want['entries'])
 
 
+REWRITES = ['100001||old text %d||a.cpp(1)\n200002||second %d||b.cpp(2)\n',
+            '100001||new text %d||a.cpp(9)\n',
+            '300001||partial only %d||c.cpp(3)\n200002||second changed %d||b.cpp(7)\n',
+            '',
+            '100001||back again %d||a.cpp(1)\n100001||duplicate||a.cpp(2)\n']
+
+
+def _rewrite_case(case):
+    """The string file at ONE path is rewritten between decodes; each decode must use the file as it is now."""
+    from io_drawer.trace import parse_trace_data
+    import shutil
+    out = []
+    d = tempfile.mkdtemp(prefix='c15r_', dir=clidrv.scratch_root())
+    try:
+        path = os.path.join(d, 'stringfile')
+        data = build({'seq': [dict(length=4, h=100001), dict(length=4, h=200002), dict(length=8, h=300001 + 100000)], 'size': 'exact'})
+        for step, idx in enumerate(case['order']):
+            with open(path, 'w') as f:
+                f.write(REWRITES[idx])
+            strings = rtrace.read_string_file(path)
+            got = parse_trace_data(memoryview(data), path)
+            prob, n = compare(got, data, strings)
+            LAST['n'] = 3
+            if prob:
+                out.append({'key': 'C15:stale-string-file', 'what': 'step %d (string file version %d at the same path): %s' % (step, idx, prob), 'case': case})
+                break
+    finally:
+        shutil.rmtree(d, ignore_errors=True)
+    return out
+
+
 def eval_case(case):
     impl.ensure(False)
+    if 'order' in case:
+        return _rewrite_case(case)
     from io_drawer.trace import parse_trace_data
     data = build(case)
     if case.get('strings', 'syn') == 'syn':
@@ -248,6 +281,9 @@ def run_chunk(chunk):
         for si, seq in enumerate(seqs):
             for ds in SIZES:
                 _do(res, {'seq': seq, 'size': ds, 'hdr': hdrs[si % len(hdrs)]}, step=1999)
+    elif k == 'rewrite':
+        for order in itertools.permutations(range(len(REWRITES)), 3):
+            _do(res, {'order': list(order)}, step=17)
     elif k == 'trunc':
         for seq in ([1, 6, 4], [5, 10, 2], [8, 3, 17]):
             full = build({'seq': seq, 'size': 'exact'})
